@@ -100,7 +100,7 @@ def run(ctx, ck):
                   'unreachable for the arguments main passes' % s.exc)
 
     # implicit IndexError: user pulse numbers used as list indices
-    from ._bounds import check_pulse_bounds
+    from ._addressing import check_pulse_bounds
     ck.rule('R-BOUNDS.pulse-index', 'user pulse number checked against the length of the list it indexes')
     nb = check_pulse_bounds(ctx, ck, ['mininec.Mininec.register_source', 'mininec.Mininec.register_load'])
     ck.floor('user-indexed pulse lists', nb, 1)
